@@ -32,6 +32,10 @@ pub struct Case {
     /// the address already exists as regular content before linking
     pub preexisting: bool,
     pub post: Post,
+    /// the same target file was linked successfully before, under the other key (the link
+    /// under test — which may be rejected — must leave that entry alone)
+    #[serde(default)]
+    pub prior_link: bool,
 }
 
 pub struct C19;
@@ -77,7 +81,7 @@ impl Engine for C19 {
                             // the relative target spelled through a symlinked directory and `..`
                             link.dotdot_via_symlink = relative && (n / 4) % 2 == 1;
                             link.vectored_reads = !oneshot && n % 3 == 1;
-                            out.push(Case { blob: Blob::new(len, 70 + n as u64), link, fl, cwd_depth: (n % 4) as u8, preexisting: n % 6 == 0, post });
+                            out.push(Case { blob: Blob::new(len, 70 + n as u64), link, fl, cwd_depth: (n % 4) as u8, preexisting: n % 6 == 0, post, prior_link: n % 5 == 2 && !relative });
                         }
                     }
                 }
@@ -88,7 +92,7 @@ impl Engine for C19 {
             for fl in [Fl::Sync, Fl::Async] {
                 for keyed in [true, false] {
                     let link = mk_link(if keyed { Some(0) } else { None }, false, false, ALGOS[i % 5], vec![3], declare, integ);
-                    out.push(Case { blob: Blob::new(50 + i, 90), link, fl, cwd_depth: 0, preexisting: false, post: Post::None });
+                    out.push(Case { blob: Blob::new(50 + i, 90), link, fl, cwd_depth: 0, preexisting: false, post: Post::None, prior_link: keyed });
                 }
             }
         }
@@ -120,7 +124,8 @@ impl Engine for C19 {
                     link.pre_reads = pre;
                 }
                 link.dotdot_via_symlink = relative && cwd_depth % 2 == 1 && preexisting == (link.blob == 0);
-                Case { blob, link, fl, cwd_depth, preexisting, post }
+                let prior_link = !relative && !preexisting && cwd_depth == 2;
+                Case { blob, link, fl, cwd_depth, preexisting, post, prior_link }
             })
             .boxed()
     }
@@ -144,6 +149,14 @@ impl Engine for C19 {
             let s = Step { op: Op::Write(w), fl: Fl::Sync };
             let r = run_step(&ctx, &s);
             model.step(&ctx, &s, &r.out, r.t0, r.t1)?;
+        }
+        if c.prior_link && !c.link.relative {
+            // an earlier, successful link of the very same target file under the other key
+            let prior = LinkSpec { key: Some(1), blob: 0, target: 0, relative: false, algo, oneshot: false, pre_reads: vec![], declare: Declare::Exact, integ: IntegDecl::None, dotdot_via_symlink: false, vectored_reads: false };
+            let s = Step { op: Op::LinkTo(prior), fl: if c.fl == Fl::Sync { Fl::Async } else { Fl::Sync } };
+            let r = run_step(&ctx, &s);
+            model.step(&ctx, &s, &r.out, r.t0, r.t1).map_err(|e| format!("earlier link of the same target: {e}"))?;
+            st.class("same_target_linked_before");
         }
         // the target, created by the harness before the call
         let target = ctx.target_path(0);
